@@ -16,14 +16,17 @@ MkTx(ni, no) == [ver |-> <<2, 0, 0, 0>>, vin |-> [j \in 1..ni |-> MkIn(j)], vout
 Sub == <<118, 169, 172>>
 HashTypes == {1, 2, 3, 129, 130, 131, 0, 4, 132}
 
-\* edit catalogue: [k, j, f]
+\* edit catalogue: [k, j, f, j2]
+E3(k, j, f) == [k |-> k, j |-> j, f |-> f, j2 |-> 0]
 Edits(t) ==
-  {[k |-> "in", j |-> j, f |-> f] : j \in 1..Len(t.vin), f \in {"prevout", "seq", "script"}}
-  \cup {[k |-> "out", j |-> j, f |-> "value"] : j \in 1..Len(t.vout)}
-  \cup {[k |-> "ver", j |-> 0, f |-> ""], [k |-> "lock", j |-> 0, f |-> ""], [k |-> "append-in", j |-> 0, f |-> ""],
-        [k |-> "append-out", j |-> 0, f |-> ""], [k |-> "other-key", j |-> 0, f |-> ""], [k |-> "none", j |-> 0, f |-> ""]}
-  \cup (IF Len(t.vout) >= 1 THEN {[k |-> "remove-last-out", j |-> Len(t.vout), f |-> ""]} ELSE {})
-  \cup (IF Len(t.vin) >= 2 THEN {[k |-> "remove-last-in", j |-> Len(t.vin), f |-> ""]} ELSE {})
+  {E3("in", j, f) : j \in 1..Len(t.vin), f \in {"prevout", "seq", "script"}}
+  \cup {E3("out", j, "value") : j \in 1..Len(t.vout)}
+  \cup {E3("ver", 0, ""), E3("lock", 0, ""), E3("append-in", 0, ""), E3("append-out", 0, ""), E3("other-key", 0, ""), E3("none", 0, "")}
+  \cup (IF Len(t.vout) >= 1 THEN {E3("remove-last-out", Len(t.vout), "")} ELSE {})
+  \cup (IF Len(t.vin) >= 2 THEN {E3("remove-last-in", Len(t.vin), "")} ELSE {})
+  \cup {[k |-> "swap-out", j |-> a, f |-> "", j2 |-> b] : a, b \in 1..Len(t.vout)}
+  \cup {[k |-> "swap-in", j |-> a, f |-> "", j2 |-> b] : a, b \in 1..Len(t.vin)}
+Swap(q, a, b) == [q EXCEPT ![a] = q[b], ![b] = q[a]]
 ApplyEdit(t, e) ==
   CASE e.k = "in" -> [t EXCEPT !.vin[e.j] = CASE e.f = "prevout" -> [@ EXCEPT !.prevout.n = <<99, 0, 0, 0>>]
                                                 [] e.f = "seq" -> [@ EXCEPT !.seq = <<99, 0, 0, 0>>]
@@ -35,12 +38,14 @@ ApplyEdit(t, e) ==
     [] e.k = "append-out" -> [t EXCEPT !.vout = Append(@, MkOut(77))]
     [] e.k = "remove-last-out" -> [t EXCEPT !.vout = SubSeq(@, 1, Len(@) - 1)]
     [] e.k = "remove-last-in" -> [t EXCEPT !.vin = SubSeq(@, 1, Len(@) - 1)]
+    [] e.k = "swap-out" -> [t EXCEPT !.vout = Swap(@, e.j, e.j2)]
+    [] e.k = "swap-in" -> [t EXCEPT !.vin = Swap(@, e.j, e.j2)]
     [] OTHER -> t
 Committed(h, i, ni, no, e) == CommitsEdit(h, i, no, e)
 
 NoSig == [key |-> "none"]
 Init == /\ \E ni \in 1..MaxIn, no \in 0..MaxOut : tx = MkTx(ni, no) /\ idx \in 0..(ni - 1)
-        /\ ht = 0 /\ sig = NoSig /\ phase = "unsigned" /\ edit = [k |-> "none", j |-> 0, f |-> ""] /\ verdict = "none"
+        /\ ht = 0 /\ sig = NoSig /\ phase = "unsigned" /\ edit = E3("none", 0, "") /\ verdict = "none"
 \* SIGHASH_SINGLE without a matching output signs the constant 1 (nothing is committed): excluded here, C03 covers it
 Sign == phase = "unsigned" /\ \E h \in HashTypes :
    /\ ~LegacyIsOne(tx, idx, h)
@@ -48,6 +53,8 @@ Sign == phase = "unsigned" /\ \E h \in HashTypes :
    /\ UNCHANGED <<tx, idx, edit, verdict>>
 Edit == phase = "signed" /\ \E e \in Edits(tx) :
    /\ ~(e.k = "remove-last-in" /\ idx = Len(tx.vin) - 1)          \* the signed input itself stays
+   /\ (e.k \in {"swap-out", "swap-in"} => e.j < e.j2)              \* two different positions
+   /\ ~(e.k = "swap-in" /\ (idx + 1 \in {e.j, e.j2}))             \*   ... and in place
    /\ ~LegacyIsOne(ApplyEdit(tx, e), idx, ht)
    /\ edit' = e /\ tx' = ApplyEdit(tx, e) /\ phase' = "edited" /\ UNCHANGED <<idx, ht, sig, verdict>>
 Verify == phase = "edited" /\
